@@ -194,26 +194,33 @@ def computePatches (patchFn : Task → Option Patch) (grouped : Bool) (vc : Str 
   | some ⟨[], c⟩ => some (sortCompact vc c)
   | _ => none
 
-/-! ## `remediation.ConstructPatches`, restricted to what the harness' universes contain: requirement names
-are distinct, the patched manifest has the same requirement keys as the original, every requirement is
-direct, vulnerabilities carry no subgraphs and ids are distinct within a list. -/
+/-! ## `remediation.ConstructPatches`, restricted to what the harness' universes contain: requirement KEYS are distinct
+(npm: package name + `KnownAs`; an alias `"y": "npm:x@1"` is a second key for a package named x, so NAMES may repeat), the
+patched manifest has the same keys as the original, every requirement is direct, vulnerabilities carry no subgraphs and
+ids are distinct within a list; no attempt moves two same-named requirements from the same version to the same version
+(their relative order would be decided by `dep.Type.Compare`, which is not modelled). -/
 
 structure Req where
   name : Str
   version : Str
+  key : Str            -- `resolution.MakeRequirementKey`: the name, or the alias the package is known as
 deriving DecidableEq, Repr
 
-def lookupReq (rs : List Req) (n : Str) : Option Str := (rs.find? (fun r => r.name = n)).map (·.version)
+def lookupReq (rs : List Req) (k : Str) : Option Str := (rs.find? (fun r => r.key = k)).map (·.version)
+
+/-- `cmpFn` of ConstructPatches on (Name, VersionFrom, VersionTo) -/
+def updLt (a b : Upd) : Bool :=
+  if ltBytes a.name b.name then true else if ltBytes b.name a.name then false
+  else if ltBytes a.vfrom b.vfrom then true else if ltBytes b.vfrom a.vfrom then false
+  else ltBytes a.vto b.vto
 
 def constructPatch (oldReqs : List Req) (oldVulns : List Str) (newReqs : List Req) (newVulns : List Str) : Patch :=
   let fixed := isort ltBytes (oldVulns.filter (fun v => !newVulns.contains v))
   let intro := isort ltBytes (newVulns.filter (fun v => !oldVulns.contains v))
   let ups := newReqs.filterMap fun r =>
-    match lookupReq oldReqs r.name with
+    match lookupReq oldReqs r.key with
     | none => some ⟨r.name, [], r.version, true⟩                       -- new key: management origin, transitive
     | some ov => if r.version = ov then none else some ⟨r.name, ov, r.version, false⟩
-  -- sorted by (Name, VersionFrom, VersionTo, Type); names are distinct here
-  let ups := isort (fun a b => ltBytes a.name b.name) ups
-  ⟨ups, fixed, intro⟩
+  ⟨isort updLt ups, fixed, intro⟩
 
 end Scalibr.Worklist
